@@ -14,4 +14,13 @@ SPECS = {
             "element field handling (transmute_field) is shared with C09 and only sampled here with a Float32 element",
         ],
     },
+    "C15": {
+        "id": "C15", "runners": ["RunC15"],
+        "partial": ["C15_full (parse exact and complete w.r.t. the numeral denotation) and the format/parse round trip are evaluated as the specification oracle on every case, not yet proved"],
+        "assumptions": [
+            "only the truncating parser variants are modelled (the builder always constructs DecimalParser with truncated = true; the other three are reachable from tests only)",
+            "the float path is modelled from trunc(v * 10^scale) as computed by the driver in floating point (documented lossy step)",
+            "BigDecimal is used as an independent referee on the Rust side",
+        ],
+    },
 }
